@@ -206,12 +206,21 @@ func (g *wgen) gen() {
 	// ---- local action
 	actIn := g.pick(keyPool, 2+r.Intn(2))
 	actReq := actIn[0]
+	// inputs named like the special `with:` keys args / entrypoint (required: the step supplies them
+	// through those keys, which are not ordinary inputs)
+	special := map[string]bool{}
+	for _, k := range []string{"args", "entrypoint"} {
+		if r.Chance(1, 3) {
+			actIn = append(actIn, k)
+			special[k] = true
+		}
+	}
 	actOut := g.pick(outPool, 1+r.Intn(2))
 	d.w(fAction, "name: my\ndescription: local action\ninputs:\n")
 	for _, k := range actIn {
 		d.w(fAction, "  ")
 		d.n(fAction, "local-action-input:def", k)
-		if k == actReq {
+		if k == actReq || special[k] {
 			d.w(fAction, ":\n    description: d\n    required: true\n")
 		} else {
 			d.w(fAction, ":\n    description: d\n    required: false\n    default: x\n")
@@ -493,6 +502,15 @@ func (g *wgen) gen() {
 				}
 				if len(ks) == 0 {
 					ks = []string{actIn[len(actIn)-1]}
+				}
+				for _, k := range actIn {
+					has := false
+					for _, x := range ks {
+						has = has || x == k
+					}
+					if (k == "args" || k == "entrypoint") && !has && r.Chance(4, 5) {
+						ks = append(ks, k)
+					}
 				}
 				for _, k := range ks {
 					d.w(f, "          ")
@@ -982,6 +1000,62 @@ func main() {
 			to := recaseBytes(r, from, []int{0, 2}[r.Intn(2)])
 			if to != from {
 				try(map[int]string{i: to}, false, "")
+			}
+		}
+	}
+	// keyword look-alikes as matrix values: "the keywords true/false/null stay case-sensitive", so a
+	// matrix value spelled TRUE / True / t / F / NULL ... is an ordinary string and must be typed
+	// exactly like any other string value (zzz); only the exact lower-case spellings are keywords.
+	{
+		wfOf := func(v string) [nFiles][]byte {
+			var t [nFiles][]byte
+			t[fWorkflow] = []byte("on: push\njobs:\n  a:\n    runs-on: ubuntu-latest\n    strategy:\n      matrix:\n        flag: [" + v + "]\n        include:\n          - other: " + v + "\n    steps:\n" +
+				"      - run: echo ${{ matrix.flag.prop }} ${{ matrix.other.prop }}\n      - run: echo ${{ startsWith(matrix.flag, 'T') && contains(matrix.other, 'x') }}\n        if: matrix.flag\n")
+			t[fAction] = []byte("name: my\ndescription: d\nruns:\n  using: composite\n  steps:\n    - run: echo\n      shell: bash\n")
+			t[fReusable] = []byte("on:\n  workflow_call:\njobs:\n  j:\n    runs-on: ubuntu-latest\n    steps:\n      - run: echo\n")
+			return t
+		}
+		refOf := func(n int) string { return strings.Repeat("z", n) }
+		refObsOf := func(n int) []string {
+			ds, err := lintFiles(root, wfOf(refOf(n)))
+			hx.Must(err)
+			return canon(ds)
+		}
+		refObs := refObsOf(3)
+		kw := map[string][]string{}
+		for _, k := range []string{"true", "false", "null"} {
+			ds, err := lintFiles(root, wfOf(k))
+			hx.Must(err)
+			kw[k] = canon(ds)
+		}
+		for _, v := range []string{"TRUE", "True", "tRUE", "FALSE", "False", "NULL", "Null", "t", "T", "f", "F", "nil", "yes", "no", "on", "off"} {
+			ds, err := lintFiles(root, wfOf(v))
+			hx.Must(err)
+			sum.Evaluations++
+			sum.Dist["W:keyword-lookalike-values"]++
+			want := refObsOf(len(v))
+			if got := canon(ds); !sameObs(got, want) {
+				// replayable like a re-casing: the original has the string value zz..z, the variant the look-alike
+				orig := wfOf(refOf(len(v)))
+				var chs []change
+				text := string(orig[fWorkflow])
+				for off := 0; ; {
+					i := strings.Index(text[off:], refOf(len(v)))
+					if i < 0 {
+						break
+					}
+					chs = append(chs, change{File: fileNames[fWorkflow], Off: off + i, From: refOf(len(v)), To: v, Kind: "keyword-lookalike-value"})
+					off += i + len(v)
+				}
+				sum.OracleFails = append(sum.OracleFails, map[string]interface{}{
+					"what": "a matrix value that is not exactly the keyword true/false/null (the keywords are case-sensitive) is not treated like an ordinary string value of the same length",
+					"key":  "keyword-lookalike:" + v, "value": v, "files": filesMap(orig), "changes": chs})
+			}
+		}
+		// measured: the exact keywords DO differ from a string value
+		for k, o := range kw {
+			if !sameObs(o, refObs) {
+				sum.Dist["W:keyword-value-differs-from-string:"+k]++
 			}
 		}
 	}
